@@ -126,3 +126,15 @@ Theorem C20_tc_ignored : forall found same_q on_conn cookie_ok edns_issue rflags
   = process_answer_decide found same_q on_conn cookie_ok edns_issue 0 conn_tcp chan_flags rcode.
 Proof. exact tc_ignored. Qed.
 Print Assumptions C20_tc_ignored.
+
+(* REFUTED for the pinned code (open finding, findings/C20.json; the source flags it with a TODO
+   in process_read): when the grouping of reads into events puts a disconnect into the same
+   read_conn_packets() loop as data (possible only after a read that filled the 65535 byte
+   buffer), that data is discarded; with the disconnect in a later event it is delivered.
+   C20_read_segmentation above therefore assumes [call_ok] (no disconnect reported). *)
+Theorem C20_data_before_disconnect_refuted :
+  exists (pa : list Z -> bool) (bytes : list Z) b1 b2,
+    run_reads pa true buf_create [[RdBytes false bytes true; RdBytes false [] false]] = Ok (b1, [], Closed) /\
+    run_reads pa true buf_create [[RdBytes false bytes false]; [RdBytes false [] false]] = Ok (b2, [ex_msg1], Closed).
+Proof. exact data_before_disconnect_refuted. Qed.
+Print Assumptions C20_data_before_disconnect_refuted.
